@@ -105,6 +105,34 @@ def kernel_job(interp, c, case):
                 "state-dependent volume divides exactly when the volume exceeds the sampled division volume")
 
 
+def general_volume_job(interp, c, case):
+    """general rate laws that mention the volume themselves (the user writes the scaling): in the volume-aware modes the symbol reads the
+    current volume wherever it stands in the formula - also inside a quotient or a power - and 1 in the other modes"""
+    text, closed = case
+    T = interp.load("bioscrape.types")
+    k, K = c.real("k", lo=0, lo_strict=True), c.real("K", lo=0, lo_strict=True)
+    A, B = c.real("A", lo=0), c.real("B", lo=0)
+    V, t = c.real("V", lo=0, lo_strict=True), c.real("t", lo=0)
+    M = T.ns["Model"](species=["A", "B"], parameters=[("k", k), ("K", K)], reactions=[(["A", "B"], [], "general", {"rate": text})])
+    p = M.propensities[0]
+    pv = M.params_values
+    st = {"A": A, "B": B}
+    sv = np.array([st[s_] for s_ in M.get_species_list()], dtype=object)
+    f = {"k*A*B/volume": lambda v: k * A * B / v, "k*A*B*volume^(-1)": lambda v: k * A * B / v, "k*A*B/volume^2": lambda v: k * A * B / (v * v),
+         "k*(A/volume)^2/(K^2 + (A/volume)^2)": lambda v: k * (A / v) * (A / v) / (K * K + (A / v) * (A / v)),
+         "k*volume*A": lambda v: k * v * A}[closed]
+    got = dict(deterministic=p.get_propensity(ptr(interp, sv.copy()), ptr(interp, pv), t),
+               stochastic=p.get_stochastic_propensity(ptr(interp, sv.copy()), ptr(interp, pv), t),
+               volume=p.get_volume_propensity(ptr(interp, sv.copy()), ptr(interp, pv), V, t),
+               stochastic_volume=p.get_stochastic_volume_propensity(ptr(interp, sv.copy()), ptr(interp, pv), V, t))
+    for mode, val in got.items():
+        want = f(V) if mode.endswith("volume") else f(1)
+        ok = c.prove(val == want, "general rate '%s' in %s mode is the written formula with volume = %s" % (text, mode, "V" if mode.endswith("volume") else "1"),
+                     info={"sig": "general rate volume symbol %s" % mode, "what": "general rate '%s' %s" % (text, mode)})
+        if ok is False:
+            c.failures[-1]["replay"] = {"kind": "general_volume", "text": text, "mode": mode}
+
+
 def check(tier):
     ck = Check("C11", "model_checking", tier)
     vs = [(2, 2, 2), (2, 2, 3)] if tier == "quick" else [(2, 2, 2), (2, 2, 3), (3, 3, 3), (2, 3, 4)]
@@ -129,6 +157,12 @@ def check(tier):
                dict(cases=ms[i:i + 8], domain="real", routes=["interface", "safe"], modes=["volume", "stochastic_volume"]))
     for i in range(0, len(hs), 8):
         ck.add("rate-laws/hill/%d" % (i // 8), "harness.C01", "hill_job", dict(cases=hs[i:i + 8], domain="real", routes=["interface", "safe"], modes=["volume", "stochastic_volume"]))
+    # general rate laws that carry their own volume scaling, and the expression nodes' volume-aware evaluation (C02's node obligations)
+    for tx in ("k*A*B/volume", "k*A*B*volume^(-1)", "k*A*B/volume^2", "k*(A/volume)^2/(K^2 + (A/volume)^2)", "k*volume*A"):
+        ck.add("general-volume/%s" % tx, "harness.C11", "general_volume_job", dict(cases=[(tx, tx)]))
+    nodes = [("VolumeTerm", 0), ("PowerTerm", 2), ("ExpTerm", 1), ("LogTerm", 1), ("StepTerm", 1), ("AbsTerm", 1)]
+    nodes += [(cls, a) for cls in ("SumTerm", "ProductTerm", "MaxTerm", "MinTerm") for a in (2, 3)]
+    ck.add("expression-nodes", "harness.C02", "node_job", dict(cases=nodes))
     ck.bounds = dict(species="<= 3", reactions="<= 3", time_points="<= 4",
                      loop="one iteration from an arbitrary pre-state (inductive) + initialisation + exit/truncation")
     ck.assumptions = [
